@@ -1,4 +1,5 @@
 import Skc.Proofs.Perm
+import Skc.Proofs.ElectrePerm
 set_option linter.unusedSectionVars false
 set_option linter.unusedVariables false
 
@@ -12,10 +13,14 @@ weight.  Scores are stated *by alternative*: the score at position `i` of the pe
 score of alternative `σ i` in the original problem.  Ranks are stated through `rankVec rev s i`, which
 is entry `i` of `rank_values(s, reverse=rev)` (`rank_values_ofFn`).
 
-**Not in Lean (harness only):** ELECTRE1 / ELECTRE2 (outranking relations, kernel, distillation — the
-model is being written for C08) and the transformers that pipelines put in front of a method (scalers,
-objective inverters, weighters — C10–C13).  `harness/props/c05.py` runs both presentations of every
-case on the real code for those too, and compares by label; no theorem of this file speaks about them.
+**ELECTRE** (section `electre`, model `Skc/Model/Electre.lean`): concordance, discordance, the ELECTRE1
+outranking relation and kernel, and ELECTRE2's weight-comparison relation (as specified and as coded)
+are proved to follow the alternatives under `σ` and to ignore the order of the criteria under `τ`; the
+strong / weak graphs are cell-wise functions of these.  **Not in Lean (harness only):** equivariance of
+the ELECTRE2 distillation loop under a relabelling of the graph, and the transformers that pipelines
+put in front of a method (their own permutation theorems are in `Props/C13.lean` for the weighters;
+scalers and inverters act per criterion, `Props/C11.lean` `*_column_local`).  `harness/props/c05.py`
+runs both presentations of every case on the real code for those too, and compares by label.
 
 Exact arithmetic: the theorems hold over every linear ordered field (`ℚ` is what the driver runs) and
 over `ℝ` for the kernels with `sqrt`/`log`; floating-point summation order is not modelled, which is
@@ -382,6 +387,78 @@ theorem evaluate_row_perm_by_name {β : Type} (alts : Fin m → String) (ha : Fu
   rw [valueOf_ofFn alts ha v k]
   have h := valueOf_ofFn (fun i => alts (σ i)) (ha.comp σ.injective) (fun i => v (σ i)) (σ.symm k)
   simpa using h
+
+/-! ## ELECTRE: the outranking relations follow the alternatives and ignore the order of criteria -/
+section electre
+open Skc.Electre
+variable {α : Type} [Field α] [LinearOrder α] [IsStrictOrderedRing α]
+
+/-- listing the alternatives in another order: concordance of the pair of *named* alternatives is unchanged -/
+theorem concordance_row_perm (A : Mat m n α) (o : Vec n Obj) (w : Vec n α) (σ : Equiv.Perm (Fin m)) (a b : Fin m) :
+    concordance (fun i => A (σ i)) o w a b = concordance A o w (σ a) (σ b) := by
+  unfold concordance
+  simp only [σ.injective.eq_iff]
+theorem discordance_row_perm [NeZero m] [NeZero n] (A : Mat m n α) (o : Vec n Obj) (σ : Equiv.Perm (Fin m)) (a b : Fin m) :
+    discordance (fun i => A (σ i)) o a b = discordance A o (σ a) (σ b) := by
+  unfold discordance
+  simp only [σ.injective.eq_iff, maxRange_row_perm]
+
+/-- listing the criteria (with their objectives and weights) in another order changes neither -/
+theorem concordance_col_perm (A : Mat m n α) (o : Vec n Obj) (w : Vec n α) (τ : Equiv.Perm (Fin n)) (a b : Fin m) :
+    concordance (fun i j => A i (τ j)) (o ∘ τ) (w ∘ τ) a b = concordance A o w a b := by
+  unfold concordance
+  split
+  · rfl
+  · congr 1
+    exact sumFin_comp_perm (fun j => if concMask (o j) (A a j) (A b j) then w j else 0) τ
+theorem discordance_col_perm [NeZero m] [NeZero n] (A : Mat m n α) (o : Vec n Obj) (τ : Equiv.Perm (Fin n)) (a b : Fin m) :
+    discordance (fun i j => A i (τ j)) (o ∘ τ) a b = discordance A o a b := by
+  unfold discordance
+  split
+  · rfl
+  · congr 1
+    rw [maxRange_col_perm]
+    exact maxFin_comp_perm (fun j => absv (if discMask (o j) (A a j) (A b j) then A b j - A a j else 0) / maxRange A) τ
+
+/-- ELECTRE1: the outranking relation and kernel membership follow the alternative … -/
+theorem electre1_outrank_row_perm [NeZero m] [NeZero n] (A : Mat m n α) (o : Vec n Obj) (w : Vec n α) (p q : α)
+    (σ : Equiv.Perm (Fin m)) (a b : Fin m) :
+    electre1Outrank (fun i => A (σ i)) o w p q a b = electre1Outrank A o w p q (σ a) (σ b) := by
+  unfold electre1Outrank; rw [concordance_row_perm, discordance_row_perm]
+theorem electre1_kernel_row_perm [NeZero m] [NeZero n] (A : Mat m n α) (o : Vec n Obj) (w : Vec n α) (p q : α)
+    (σ : Equiv.Perm (Fin m)) (b : Fin m) :
+    electre1Kernel (fun i => A (σ i)) o w p q b = electre1Kernel A o w p q (σ b) := by
+  unfold electre1Kernel
+  congr 1
+  rw [Bool.eq_iff_iff, anyFin_iff, anyFin_iff]
+  simp only [electre1_outrank_row_perm]
+  constructor
+  · rintro ⟨a, ha⟩; exact ⟨σ a, ha⟩
+  · rintro ⟨a, ha⟩; exact ⟨σ.symm a, by simpa using ha⟩
+/-- … and do not depend on the order of the criteria -/
+theorem electre1_outrank_col_perm [NeZero m] [NeZero n] (A : Mat m n α) (o : Vec n Obj) (w : Vec n α) (p q : α)
+    (τ : Equiv.Perm (Fin n)) (a b : Fin m) :
+    electre1Outrank (fun i j => A i (τ j)) (o ∘ τ) (w ∘ τ) p q a b = electre1Outrank A o w p q a b := by
+  unfold electre1Outrank; rw [concordance_col_perm, discordance_col_perm]
+theorem electre1_kernel_col_perm [NeZero m] [NeZero n] (A : Mat m n α) (o : Vec n Obj) (w : Vec n α) (p q : α)
+    (τ : Equiv.Perm (Fin n)) (b : Fin m) :
+    electre1Kernel (fun i j => A i (τ j)) (o ∘ τ) (w ∘ τ) p q b = electre1Kernel A o w p q b := by
+  unfold electre1Kernel; simp only [electre1_outrank_col_perm]
+
+/-- ELECTRE2's weight-comparison relation (as specified and as coded) and hence its strong / weak
+graphs follow the alternatives and ignore the order of the criteria -/
+theorem wor_row_perm (A : Mat m n α) (o : Vec n Obj) (w : Vec n α) (σ : Equiv.Perm (Fin m)) (a b : Fin m) :
+    worSpec (fun i => A (σ i)) o w a b = worSpec A o w (σ a) (σ b) ∧
+    worCode (fun i => A (σ i)) o w a b = worCode A o w (σ a) (σ b) := by
+  unfold worSpec worCode worBody
+  simp only [σ.injective.eq_iff, and_self]
+theorem wor_col_perm (A : Mat m n α) (o : Vec n Obj) (w : Vec n α) (τ : Equiv.Perm (Fin n)) (a b : Fin m) :
+    worSpec (fun i j => A i (τ j)) (o ∘ τ) (w ∘ τ) a b = worSpec A o w a b ∧
+    worCode (fun i j => A i (τ j)) (o ∘ τ) (w ∘ τ) a b = worCode A o w a b := by
+  unfold worSpec worCode
+  exact ⟨worBody_col_perm w (fun j => decide (o j = .max)) A τ a b,
+         worBody_col_perm (fun j => (o j).sgn) (fun j => decide (w j = 1)) A τ a b⟩
+end electre
 
 /-! ## non-vacuity -/
 section examples
